@@ -22,6 +22,8 @@ type ByzLeader struct {
 	PrecommitTo  [][]int                // optional narrower targets for PRECOMMIT
 	CommitTo     [][]int                // optional narrower targets for COMMIT
 	WrongPhaseCM bool                   // COMMIT carries the PROPOSE_VOTE certificate instead of the PRECOMMIT_VOTE one
+	NoPartialCM  bool                   // do not send COMMIT when the PRECOMMIT_VOTE certificate is below +2/3 (input class of an open finding)
+	SkippedCM    int
 	Sent         []*Env
 	PCCerts      []*lib.QuorumCertificate // the PROPOSE_VOTE certificates that were formed (index = proposal)
 	CMCerts      []*lib.QuorumCertificate
@@ -114,6 +116,10 @@ func (b *ByzLeader) After(step int, sent []*Env) {
 			}
 			if b.WrongPhaseCM && b.PCCerts[k] != nil {
 				cert = b.PCCerts[k]
+			}
+			if b.NoPartialCM && cert.Header.Phase == PrecommitVote && s.CertPower(cert) < s.VS.MinimumMaj23 {
+				b.SkippedCM++
+				continue
 			}
 			b.deliver(s.CraftJustified(b.D, b.Root, b.Round, Commit, cert, p.RcBuild, to))
 		}
